@@ -128,6 +128,9 @@ class C02(Check):
                 K = rng.choice([1, 8, 31, 32, 33, 40, 65])   # the equations hold for any number of groups
             wt = rng.choice("uuur")
             recs, L = gen.records(rng, wt=wt)
+            if n % 50 == 11:
+                recs, L = gen.records(rng, wt="u", N=rng.randint(2, 4), nrec=rng.randint(2, 4), heavy="wide")
+                wt = "u"
             net = ref.PyNet(recs, L, directed, real=(wt == "r"))
             reach = (net.U, net.V) if rng.random() < 0.6 else None
             u, v, w = gen.random_state(rng, net.N, K, L, assort, directed, reach)
